@@ -5,13 +5,13 @@ from typing import Any, Optional
 
 from autobean_refactor.models import base
 
-from vf.gen import ledger as L, ops as OPS, sweeps
+from vf.gen import ledger as L, ops as OPS, store as GS, sweeps
 from vf.obs import core as O
 from vf.props import common
 from vf.run import Job, Result
 
 ID = 'C03'
-RULE = ('A generated ledger (G1, parsed normally) followed by a state-aware program of 1-5 slot operations: optional / required / '
+RULE = ('(In 30% of the generated programs the token store works with blocks of 4 instead of 1000 tokens, so that the edits split and merge blocks, the first one included, in small documents.) A generated ledger (G1, parsed normally) followed by a state-aware program of 1-5 slot operations: optional / required / '
         'custom-optional raw slots with donors, every value-level property (incl. None), every MutableSequence operation on raw lists, '
         'filtered / string views and meta mappings with every index class; plus the list-operation sweep (every list-bearing field x '
         'length 0..3 x every operation shape). Oracle per step, with P the model owning the slot: (1) tokens before P.first and after '
@@ -25,7 +25,7 @@ ASSUMPTIONS = [
     'for the documented dependent groups (cost number/currency family, payee/narration) the group is one logical child',
 ]
 SHRINK_LISTS = ('ops', 'dirs')
-REQUIRED_CLASSES = ('fam:opt', 'fam:req', 'fam:val', 'fam:list', 'fam:view', 'fam:map', 'group')
+REQUIRED_CLASSES = ('lf:4', 'fam:opt', 'fam:req', 'fam:val', 'fam:list', 'fam:view', 'fam:map', 'group')
 FAMILIES = ['opt', 'opt', 'req', 'val', 'val', 'list', 'list', 'view', 'view']
 SEP = (O.Whitespace, O.Newline, O.Comma)
 
@@ -52,6 +52,18 @@ def _group_children(P: Any) -> list:
 
 
 def run_case(case: dict) -> Result:
+    # small store blocks in a share of the cases: the edits then split and merge blocks (the first block included) in small documents
+    old = GS.set_lf(int(case.get('lf', 1000)))
+    try:
+        res = _run_case(case)
+        if not res.discard:
+            res.classes = sorted(set(res.classes) | {'lf:%d' % int(case.get('lf', 1000))})
+        return res
+    finally:
+        GS.restore_lf(old)
+
+
+def _run_case(case: dict) -> Result:
     res = Result()
     root = common.parse_case(case)
     if root is None:
@@ -231,7 +243,14 @@ def _build(tier: str):
 
     def build(rnd: Any) -> dict:
         from vf.props import c10
-        return OPS.build_program(rnd, cfg, FAMILIES, 6, common.parse_file, stick=0.7, prime=c10.prime)
+        lf = 4 if rnd.random() < 0.3 else 1000
+        old = GS.set_lf(lf)
+        try:
+            case = OPS.build_program(rnd, cfg, FAMILIES, 6, common.parse_file, stick=0.7, prime=c10.prime)
+        finally:
+            GS.restore_lf(old)
+        case['lf'] = lf
+        return case
     return build
 
 
